@@ -176,8 +176,9 @@ if (precond_t) *precond_t += RAPtor_MPI_Wtime();
 if (comm_t) *comm_t -= RAPtor_MPI_Wtime();
     rz_inner = r.inner_product(z);
 if (comm_t) *comm_t += RAPtor_MPI_Wtime();
+    // same scaling as every later entry: (r, M^{-1} r) / (b, M^{-1} b)
     norm_rz = sqrt(rz_inner);
-    res.emplace_back(norm_rz);
+    res.emplace_back(rz_inner / b_inner);
 
     recompute_r = 8;
     iter = 0;
